@@ -515,14 +515,15 @@ uint8_t* DNS::update_dname(uint8_t* ptr, uint32_t threshold, uint32_t offset) {
                 index = Endian::host_to_be<uint16_t>((index + offset) | 0xc000);
                 memcpy(ptr, &index, sizeof(uint16_t));
             }
-            ptr += sizeof(uint16_t);
-            break;
+            // The offset pointer is the last element of the name
+            return ptr + sizeof(uint16_t);
         }
         else {
             ptr += *ptr + 1;
         }
     }
-    return ptr;
+    // Skip the terminating null label as well
+    return ptr + 1;
 }
 
 // Updates offsets in domain names inside records.
